@@ -70,7 +70,7 @@ func vpModelSortIdentity(txns coin.Transactions, calc coin.FeeCalculator) (coin.
 }
 
 //vp:prop C02 C05
-//vp:bounds 1..2 (quick) / 1..3 (thorough) transactions of 1..2 inputs drawn from 3 output ids (each unspent or not at the head, free) and 1 distinct output; per-transaction rule verdict free; follower (strict) and publisher (arbitrating) mode
+//vp:bounds 1..2 transactions of 1..2 inputs (thorough: also 3 transactions of 1 input) drawn from 3 output ids (each unspent or not at the head, free) and 1 distinct output; per-transaction rule verdict free; follower (strict) and publisher (arbitrating) mode
 //vp:assume SHA256 collision free; transaction.VerifyBlockTxnConstraints summarised by a free per-transaction verdict; in arbitrating mode the submitted order is the fee order (coin.SortTransactions is checked by vpH_C05_SortOrder)
 //vp:rule github.com/skycoin/skycoin/src/transaction.VerifyBlockTxnConstraints model:vpModelVerifyBlockTxn
 //vp:rule github.com/skycoin/skycoin/src/coin.SortTransactions model:vpModelSortIdentity
@@ -95,7 +95,10 @@ func vpH_C02_ProcessTransactions() {
 	txns := make(coin.Transactions, n)
 	inIdx := make([][]int, n)
 	for i := range txns {
-		k := vpLen("nIn", 1, 2)
+		k := 1
+		if n < 3 {
+			k = vpLen("nIn", 1, 2) // three transactions (thorough tier): one input each
+		}
 		txns[i].In = make([]cipher.SHA256, k)
 		txns[i].Sigs = make([]cipher.Sig, k)
 		inIdx[i] = make([]int, k)
